@@ -18,9 +18,6 @@ package boltz
 //@ define wrote(b, n, v) = bktHas[b.Bucket] == sto(old(bktHas[b.Bucket]), n, true) && bktVal[b.Bucket] == sto(old(bktVal[b.Bucket]), n, v) && bktSub[b.Bucket][n] == 0
 
 // byte-string vocabulary (theory of byte strings: assumed)
-//@ spec byte1(x Int) Str
-//@ axiom byte1_def: (forall ((x Int)) (! (and (= (str_len (byte1 x)) 1) (=> (and (<= 0 x) (<= x 255)) (= (str_at (byte1 x) 0) x))) :pattern ((byte1 x))))
-//@ axiom byte1_ext: (forall ((s Str) (x Int)) (! (=> (and (= (str_len s) 1) (= (str_at s 0) x)) (= s (byte1 x))) :pattern ((byte1 x) (str_len s))))
 //@ spec u64(v Int) Int = (ite (< v 0) (+ v 18446744073709551616) v)
 //@ spec s64(v Int) Int = (ite (> v 9223372036854775807) (- v 18446744073709551616) v)
 //@ spec u32(v Int) Int = (ite (< v 0) (+ v 4294967296) v)
